@@ -125,7 +125,7 @@ const MALFORMED: [(&str, &[&str]); 6] = [
     ("InvalidQuotesLocation", &["\"cmd\" a", "x = \"cmd\"", ":\"l\" cmd", "\"x\" = cmd", ":l \"cmd\""]),
     ("InvalidControlLocation", &["c\\md a", "x = c\\nmd", ":l\\a cmd", "x\\y = cmd", "\\cmd"]),
     ("PreProcessNoCommandFound", &["!", "  !", "!   ", "\t! "]),
-    ("UnknownPreProcessorCommand", &["!x", "!Print a", "!include a", "!print2", "!unknown a b"]),
+    ("UnknownPreProcessorCommand", &["!x", "!Print a", "!include a", "!print2", "!unknown a b", "!!print x", "!!!include_files f.ds", "!print! x", "!PRINT x", "!printx", "!include_file f.ds", "!-print x", "!:print x"]),
 ];
 
 const WELLFORMED: [&str; 12] = [
@@ -280,6 +280,47 @@ pub fn worker(w: &mut Worker) {
                         cj,
                     ),
                     (a, b) => w.fail("panic", &format!("{:?} {:?}", a.err(), b.err()), cj),
+                }
+            }
+        }
+    }
+    // characters that do not show (byte order mark, zero-width space / joiners, word joiner, soft hyphen,
+    // Arabic letter mark, Mongolian vowel separator, NUL and the other C0 controls, DEL, C1 controls,
+    // variation selectors, a lone combining mark, a tag character) alone on a line, doubled, between
+    // blanks, in front of and behind a command, a comment, a directive: parsing stays total and line-local
+    {
+        let mut invisible: Vec<char> = vec!['\u{feff}', '\u{200b}', '\u{200c}', '\u{200d}', '\u{2060}', '\u{ad}', '\u{61c}', '\u{180e}', '\u{7f}', '\u{fe0f}', '\u{301}', '\u{e0041}', '\u{fffd}', '\u{ffff}', '\u{10ffff}'];
+        invisible.extend((0u32..0x20).filter(|c| *c != 0x0a && *c != 0x0d).filter_map(char::from_u32));
+        invisible.extend((0x80u32..0xa0).filter_map(char::from_u32));
+        for c in invisible {
+            for line in [
+                c.to_string(),
+                format!("{}{}", c, c),
+                format!(" {} ", c),
+                format!("{}cmd a", c),
+                format!("cmd a{}", c),
+                format!("cmd {} b", c),
+                format!("{} cmd a", c),
+                format!("{}# note", c),
+                format!("{}!print x", c),
+                format!("!{}", c),
+                format!(":{}", c),
+                format!("x{} = set 1", c),
+                format!("cmd \"{}\"", c),
+            ] {
+                for pos in 0..3usize {
+                    if !w.take() {
+                        continue;
+                    }
+                    let mut ls = vec!["echo before", "x = set 1", "echo after"];
+                    ls.insert(pos, &line);
+                    run_text(w, &ls.join("\n"), &[], "invisible-character");
+                }
+                for eol in ["", "\n", "\r\n"] {
+                    if !w.take() {
+                        continue;
+                    }
+                    run_text(w, &format!("{}{}", line, eol), &[], "invisible-character");
                 }
             }
         }
@@ -454,7 +495,7 @@ pub fn crash_sig(_case: &Value, kind: &str) -> String {
     kind.to_string()
 }
 
-pub const RULE: &str = "enumeration (no duplicates within a phase): planted malformed line (6 kinds x 4-5 spellings) at every position among every choice of well-formed lines (pool of 10), LF and CRLF; pairs of malformed lines; the escape table (a backslash, and a backslash-dollar, followed by each of 18 characters in 6 argument positions (four on command lines, two on pre-processor lines), in the middle of an argument / at the end of the line / before trailing white space / before a comment / before the closing quote, alone and behind an earlier well-formed escape (\\${v}, \\n, \\\\) of the same argument, at every line position: only the documented escapes parse, all others are rejected with ControlWithoutValidValue); every sequence of tokens from a pool of 14; lines of 10^4 and 10^5 repeated characters of each class; a line with 20000 / 200000 (thorough 2000000) arguments, well-formed and ending in an unterminated quote; texts of 20000 (thorough 10^6) lines, well-formed and with a malformed line in the middle / at the end; every text up to the length bound over {a SP \" \\ # = : ! $ { LF CR} (+TAB, e-acute). Oracle: no panic; Ok => one instruction per line with line numbers 1..n, no source tag, blank/comment lines Empty, each line parses alone to the same instruction; Err(kind,k) => 1<=k<=n and line k alone is rejected with the same kind; planted error => that kind and line. Non-trivial: the text contains one of \" \\ # = : !; states = distinct (verdict, error kind, error line, line count) classes, transitions = parse_text calls on whole texts. White space at line ends: each of the 23 Unicode white-space characters other than LF and CR in front of, behind and around every blank, comment, malformed (same kind, same line) and well-formed (same instruction as without it) line";
+pub const RULE: &str = "enumeration (no duplicates within a phase): planted malformed line (6 kinds x 4-5 spellings) at every position among every choice of well-formed lines (pool of 10), LF and CRLF; pairs of malformed lines; the escape table (a backslash, and a backslash-dollar, followed by each of 18 characters in 6 argument positions (four on command lines, two on pre-processor lines), in the middle of an argument / at the end of the line / before trailing white space / before a comment / before the closing quote, alone and behind an earlier well-formed escape (\\${v}, \\n, \\\\) of the same argument, at every line position: only the documented escapes parse, all others are rejected with ControlWithoutValidValue); every sequence of tokens from a pool of 14; lines of 10^4 and 10^5 repeated characters of each class; a line with 20000 / 200000 (thorough 2000000) arguments, well-formed and ending in an unterminated quote; texts of 20000 (thorough 10^6) lines, well-formed and with a malformed line in the middle / at the end; every text up to the length bound over {a SP \" \\ # = : ! $ { LF CR} (+TAB, e-acute). Oracle: no panic; Ok => one instruction per line with line numbers 1..n, no source tag, blank/comment lines Empty, each line parses alone to the same instruction; Err(kind,k) => 1<=k<=n and line k alone is rejected with the same kind; planted error => that kind and line. Non-trivial: the text contains one of \" \\ # = : !; states = distinct (verdict, error kind, error line, line count) classes, transitions = parse_text calls on whole texts. White space at line ends: each of the 23 Unicode white-space characters other than LF and CR in front of, behind and around every blank, comment, malformed (same kind, same line) and well-formed (same instruction as without it) line. Invisible characters: 79 characters that do not show (byte order mark, zero-width space and joiners, word joiner, soft hyphen, NUL and the other C0 / C1 controls, DEL, a variation selector, a combining mark, a tag character, U+FFFD, noncharacters) in 13 line shapes at 3 positions and with 3 line ends: total, line-local, no panic";
 pub const ASSUMPTIONS: &[&str] = &["no !include_files directive in the texts (C14 covers includes)"];
 pub const EXHAUSTIVE: bool = true;
 pub const WALL_CAP_S: (u64, u64) = (50, 1500);
